@@ -494,8 +494,8 @@ impl Check for C02 {
     }
     fn cases(&self, tier: Tier) -> u64 {
         match tier {
-            Tier::Quick => 150_000,
-            Tier::Thorough => 6_000_000,
+            Tier::Quick => 1_200_000,
+            Tier::Thorough => 40_000_000,
         }
     }
     /// Direct cases: JSON {"env": Env, "expected": [Ty], "bytes": hex}
